@@ -7,8 +7,10 @@ TA = {1: dict(i1=0, hasQ=0, prim=0, hasM=0), 2: dict(i1=1, hasQ=0, prim=0, hasM=
       7: dict(i1=1, hasQ=0, prim=0, hasM=1), 8: dict(i1=1, hasQ=1, prim=0, hasM=1), 9: dict(i1=0, hasQ=0, prim=0, hasM=0),
       10: dict(i1=1, hasQ=0, prim=0, hasM=0), 11: dict(i1=1, hasQ=1, prim=0, hasM=1), 12: dict(i1=0, hasQ=0, prim=0, hasM=1),
       13: dict(i1=1, hasQ=0, prim=0, hasM=0), 14: dict(i1=1, hasQ=0, prim=1, hasM=1),
-      15: dict(i1=1, hasQ=0, prim=0, hasM=0, zero=1), 16: dict(i1=1, hasQ=0, prim=0, hasM=1, zero=1)}
-PROV_TYPES = [1, 2, 3, 4, 5, 6, 7, 8, 12, 13, 14, 15, 16]
+      15: dict(i1=1, hasQ=0, prim=0, hasM=0, zero=1), 16: dict(i1=1, hasQ=0, prim=0, hasM=1, zero=1),
+      17: dict(i1=1, hasQ=0, prim=1, hasM=0, zero=1), 18: dict(i1=1, hasQ=1, prim=0, hasM=0, zero=1)}
+PROV_TYPES = [1, 2, 3, 4, 5, 6, 7, 8, 12, 13, 14, 15, 16, 17, 18]
+ZERO_TYPES = [15, 16, 17, 18]
 HOLDER_TYPES = [9, 10, 11]
 KINDS = ["iface", "siface", "ptr", "sptr", "any", "aiface", "aptr"]
 QUALS = [(False, []), (True, ["g1"]), (True, ["g1", "g2"]), (True, ["g9"])]
@@ -17,8 +19,10 @@ QUALS = [(False, []), (True, ["g1"]), (True, ["g1", "g2"]), (True, ["g9"])]
 def attr(rng, ty, named=None):
     if TA[ty].get("zero"):
         named = False          # a field-less struct has nowhere to keep a custom name
-    return dict(ty=ty, named=rng.random() < 0.5 if named is None else named,
-                q=rng.choice(["g1", "g2"]) if TA[ty]["hasQ"] else "-")
+    q = rng.choice(["g1", "g2"]) if TA[ty]["hasQ"] else "-"
+    if ty == 18:
+        q = "g1"               # ... nor a qualifier other than the constant its method returns
+    return dict(ty=ty, named=rng.random() < 0.5 if named is None else named, q=q)
 
 
 def name_ok(provs):
@@ -83,8 +87,9 @@ def rand_scenario(rng, focus, sid, max_prov=5, max_pts=3):
     while True:
         n = rng.randint(1, max_prov)
         provs = [attr(rng, rng.choice(HOLDER_TYPES))] + [attr(rng, rng.choice(PROV_TYPES)) for _ in range(n)]
-        if focus in ("C06", "C09") and rng.random() < 0.2:
-            provs += [attr(rng, 15), attr(rng, 16)]      # two field-less components: same address, different components
+        if rng.random() < 0.2:
+            # two or three field-less components (plain, with Mark(), Primary, qualified): same address, different components
+            provs += [attr(rng, t) for t in rng.sample(ZERO_TYPES, rng.choice([2, 2, 3]))]
         if name_ok(provs):
             break
     npts = rng.randint(1, max_pts)
